@@ -80,6 +80,8 @@ type Engine struct {
 	merges      int
 	nchoice     int
 	closedCls   map[string]bool
+	mutGlobals  map[string]bool
+	freshObjs   []string
 	neverClosedSends map[string]int
 }
 
@@ -610,6 +612,22 @@ func (e *Engine) execSimple(st *State, fr *Frame, ins ssa.Instruction) {
 	case *ssa.DebugRef:
 	case *ssa.Alloc:
 		elem := x.Type().Underlying().(*types.Pointer).Elem()
+		if _, isStruct := elem.Underlying().(*types.Struct); isStruct && x.Heap && !isOpaque(elem) {
+			// escaping struct allocations live in the heap arrays so that every alias sees the same fields
+			obj := e.smt.Fresh("obj", SU)
+			st.assume(mkNot(mkEq(obj, "nil")))
+			e.freshObjs = append(e.freshObjs, obj)
+			loc := &Loc{Kind: LHeap, Obj: obj, Root: elem, T: elem}
+			e.store(st, loc, e.zeroVal(elem))
+			fr.regs[x] = Val{T: x.Type(), L: []string{obj}, R: []*Refine{{Loc: loc}}}
+			if x.Comment != "" {
+				if fr.heapNames == nil {
+					fr.heapNames = map[string]*Loc{}
+				}
+				fr.heapNames[x.Comment] = loc
+			}
+			break
+		}
 		c := e.newCell(elem, x.Comment, x.Heap)
 		if at, ok := elem.Underlying().(*types.Array); ok {
 			// arrays are modelled as backing stores addressed like slices
@@ -780,6 +798,9 @@ func (e *Engine) checkDeref(st *State, fr *Frame, p Val, v ssa.Value, pos token.
 func (e *Engine) checkHashable(st *State, k Val, desc string, pos token.Pos) {
 	if !isInterface(k.T) {
 		return
+	}
+	if typeKey(k.T) == "reflect.Type" {
+		return // every reflect.Type implementation is a comparable pointer (documented by package reflect)
 	}
 	if r := k.ref(0); r != nil && r.Box != nil {
 		if types.Comparable(r.Box.T) {
